@@ -130,6 +130,22 @@ def build(tier="quick", seed=0):
     pack.add(Obligation("C04.iter.step[record of a type without fields]", lambda tier: prove_paths("C04.iter.step[record of a type without fields]", with_cut(th_marker), judge_marker, lambda m_, p: {"s": model_value(m_, sv)}, allow_raise=None),
                         replay=lambda w: {"call": "c04_roundtrip", "args": {"s": w.get("s") or "", "marker": True}}, functions=FU, mode="invariant (loop cut after one iteration, arbitrary registry and following bytes)"))
 
+    def th_limits():
+        """a complete frame may hold a value of any size the 4-byte length allows: the reader's decoder is not configured with smaller limits"""
+        D, Do = two_descs()
+        r = it.call(D, [], {"n": SInt(x), "s": SStr(sv)})
+        fp, rd = reader_at_loop_head(it, st, frame_of(it, pk, r) + [sym_tail(it)], registry(D, Do))
+        n0 = len(it.events)
+        run_iter(rd)
+        lim = []
+        for e in it.events[n0:]:
+            if e[0] == "unpackb-options":
+                lim += [(k_, v_) for k_, v_ in e[1:-1] if isinstance(k_, str) and k_.startswith("max_") and isinstance(v_, int) and 0 <= v_ < 2**32 - 1]
+        return sorted(set(lim))
+
+    pack.add(Obligation("C04.iter.limits[no size limit below what a frame can hold]", lambda tier: prove_paths("C04.iter.limits[no size limit below what a frame can hold]", with_cut(th_limits), lambda p: (p.kind == "raise" or p.value == [], f"the reader decodes frames with the limits {p.value if p.kind != 'raise' else ''}: a complete frame holding a larger value is not yielded (nor anything behind it)"), lambda m_, p: {}, allow_raise=None),
+                        replay=lambda w: {"call": "c04_large_values", "args": {}}, functions=FU, mode="options of the decoder call (assumed msgpack contract: without max_* options a value of any size is decoded)"))
+
     def th_unknown():
         D, Do = two_descs()
         r = it.call(D, [], {"n": 5, "s": "7"})
